@@ -328,6 +328,180 @@ static void run_range(FILE* out, int kfrom, int kto, int sticky, int lsan_each)
     fprintf(out, "leakcheck %d\n", __lsan_do_recoverable_leak_check());
 }
 
+// ------------------------------------------------------------------ API histories on external variables
+static char* tok(char** p);
+// script: space separated ops, executed in order; a failing op does not stop the history (the objects must stay usable):
+//   inj+ inj-            open / close the injection window
+//   cnew                 yr_compiler_create (+ callbacks)
+//   cdefs:<v> cdefi:<name>:<n> cdefb:<name>:<n> cdeff:<name>   yr_compiler_define_*_variable (string variable: ext_s)
+//   cadd cget cdel       add the rule source, get the rules, destroy the compiler
+//   rdefs:<v> rdefs@<name>:<v> rdefi:<name>:<n> rdefb:<name>:<n> rdeff:<name>   yr_rules_define_*_variable on the current rules
+//   save load            save the current rules; load them and make the loaded copy the current rules
+//   snew sdefs:<v> sdefi:<name>:<n> scan sdel   scanner on the current rules
+// prints the return code of every op (-1: not applicable, e.g. no scanner) and the scan results
+static char g_script[4096];
+
+static void history(FILE* out, int k)
+{
+  YR_COMPILER* c = NULL;
+  YR_RULES* rules = NULL;
+  YR_RULES* loaded = NULL;
+  YR_RULES* cur = NULL;
+  YR_SCANNER* sc = NULL;
+  char script[4096];
+  char rcs[1024] = "";
+  char sigs[2048] = "";
+  size_t rl = 0, sl = 0;
+  char fault[96] = "-";      // the history op in which the first injected failure happened, and what it returned
+  int opidx = 0;
+  strcpy(script, g_script);
+  yr_initialize();
+  char* p = script;
+  for (;;)
+  {
+    char* op = tok(&p);
+    if (!*op) break;
+    int rc = -1;
+    char* arg = strchr(op, ':');
+    char* name = NULL;
+    if (arg) *arg++ = 0;
+    char* at = strchr(op, '@');
+    if (at) { *at++ = 0; name = at; }
+    if (!strcmp(op, "inj+")) { g_active = 1; continue; }
+    if (!strcmp(op, "inj-")) { g_active = 0; continue; }
+    long fired_before = g_fired;
+    char opname[32];
+    snprintf(opname, sizeof opname, "%s", op);
+    if (k > 0) { char m[80]; int l = snprintf(m, sizeof m, "HOP %d %s\n", opidx, opname); if (write(2, m, l) < 0) {} }
+    if (!strcmp(op, "cnew"))
+    {
+      rc = yr_compiler_create(&c);
+      if (rc == ERROR_SUCCESS)
+      {
+        yr_compiler_set_callback(c, compile_cb, NULL);
+        yr_compiler_set_include_callback(c, include_cb, include_free, NULL);
+      }
+      else c = NULL;
+    }
+    else if (!strcmp(op, "cdefs")) { if (c) rc = yr_compiler_define_string_variable(c, name ? name : "ext_s", arg ? arg : ""); }
+    else if (!strcmp(op, "cdefi") || !strcmp(op, "cdefb") || !strcmp(op, "cdeff"))
+    {
+      char* v = arg ? strchr(arg, ':') : NULL;
+      if (v) *v++ = 0;
+      if (c && arg)
+        rc = op[4] == 'i' ? yr_compiler_define_integer_variable(c, arg, v ? atoi(v) : 0)
+           : op[4] == 'b' ? yr_compiler_define_boolean_variable(c, arg, v ? atoi(v) : 0) : yr_compiler_define_float_variable(c, arg, 2.5);
+    }
+    else if (!strcmp(op, "cadd")) { if (c) { int e = yr_compiler_add_string(c, (const char*) g_src, NULL); rc = e ? (c->last_error ? c->last_error : 9999) : 0; } }
+    else if (!strcmp(op, "cget")) { if (c && c->errors == 0) { rc = yr_compiler_get_rules(c, &rules); if (rc != ERROR_SUCCESS) rules = NULL; else cur = rules; } }
+    else if (!strcmp(op, "cdel")) { if (c) { yr_compiler_destroy(c); c = NULL; rc = 0; } }
+    else if (!strcmp(op, "rdefs")) { if (cur) rc = yr_rules_define_string_variable(cur, name ? name : "ext_s", arg ? arg : ""); }
+    else if (!strcmp(op, "rdefi") || !strcmp(op, "rdefb") || !strcmp(op, "rdeff"))
+    {
+      char* v = arg ? strchr(arg, ':') : NULL;
+      if (v) *v++ = 0;
+      if (cur && arg)
+        rc = op[4] == 'i' ? yr_rules_define_integer_variable(cur, arg, v ? atoi(v) : 0)
+           : op[4] == 'b' ? yr_rules_define_boolean_variable(cur, arg, v ? atoi(v) : 0) : yr_rules_define_float_variable(cur, arg, 2.5);
+    }
+    else if (!strcmp(op, "save"))
+    {
+      if (cur)
+      {
+        YR_STREAM st;
+        g_imglen = 0;
+        st.user_data = NULL; st.write = img_write; st.read = img_read;
+        rc = yr_rules_save_stream(cur, &st);
+      }
+    }
+    else if (!strcmp(op, "load"))
+    {
+      if (g_imglen > 0 && loaded == NULL)
+      {
+        YR_STREAM st;
+        g_imgpos = 0;
+        st.user_data = NULL; st.write = img_write; st.read = img_read;
+        rc = yr_rules_load_stream(&st, &loaded);
+        if (rc != ERROR_SUCCESS) loaded = NULL; else cur = loaded;
+      }
+    }
+    else if (!strcmp(op, "snew"))
+    {
+      if (cur && sc == NULL)
+      {
+        rc = yr_scanner_create(cur, &sc);
+        if (rc != ERROR_SUCCESS) sc = NULL;
+        else { yr_scanner_set_callback(sc, scan_cb, NULL); yr_scanner_set_timeout(sc, 30); }
+      }
+    }
+    else if (!strcmp(op, "sdefs")) { if (sc) rc = yr_scanner_define_string_variable(sc, name ? name : "ext_s", arg ? arg : ""); }
+    else if (!strcmp(op, "sdefi"))
+    {
+      char* v = arg ? strchr(arg, ':') : NULL;
+      if (v) *v++ = 0;
+      if (sc && arg) rc = yr_scanner_define_integer_variable(sc, arg, v ? atoi(v) : 0);
+    }
+    else if (!strcmp(op, "scan"))
+    {
+      if (sc)
+      {
+        g_siglen = 0;
+        g_sig[0] = 0;
+        rc = yr_scanner_scan_mem(sc, g_data, g_datalen);
+        if (sl < sizeof sigs - 300) sl += snprintf(sigs + sl, 300, "%s|", rc == ERROR_SUCCESS ? (g_sig[0] ? g_sig : ".") : "!");
+      }
+    }
+    else if (!strcmp(op, "sdel")) { if (sc) { yr_scanner_destroy(sc); sc = NULL; rc = 0; } }
+    if (rl < sizeof rcs - 16) rl += snprintf(rcs + rl, 16, "%d,", rc);
+    if (fired_before == 0 && g_fired > 0) snprintf(fault, sizeof fault, "%d:%s:%d", opidx, opname, rc);
+    opidx++;
+  }
+  g_active = 0;
+  if (sc) yr_scanner_destroy(sc);
+  if (loaded) yr_rules_destroy(loaded);
+  if (rules) yr_rules_destroy(rules);
+  if (c) yr_compiler_destroy(c);
+  yr_finalize();
+  fprintf(out, "res k=%d fired=%ld phase=H rc=0 errs=0 count=%ld", k, g_fired, g_count);
+  fprintf(out, " HIST=%s;%s;%s", rcs, sigs[0] ? sigs : "-", fault);
+}
+
+static void run_history(FILE* out, int kfrom, int kto, int sticky)
+{
+  for (int k = kfrom; k <= kto; k++)
+  {
+    long base = g_live;
+    g_case_k = k;
+    fprintf(out, "begin k=%d\n", k);
+    fflush(out);
+    { char m[64]; int l = snprintf(m, sizeof m, "BEGIN k=%d\n", k); if (write(2, m, l) < 0) {} }
+    g_count = 0;
+    g_fired = 0;
+    g_fail_at = k;
+    g_sticky = sticky;
+    char line[8192];
+    FILE* mem = fmemopen(line, sizeof line, "w");
+    history(mem, k);
+    fclose(mem);
+    g_fail_at = 0;
+    long fired = g_fired;
+    long live = g_live - base;
+    PRES f;
+    int wsave = g_window;
+    g_window = 0;
+    pipeline((const uint8_t*) FOLLOW_SRC, (const uint8_t*) FOLLOW_DATA, strlen(FOLLOW_DATA), &f);
+    g_window = wsave;
+    long live2 = g_live - base;
+    char* hist = strstr(line, " HIST=");
+    if (hist) *hist = 0;
+    fprintf(out, "%s live=%ld live2=%ld lsan=-1 sig=%s follow=%s/%d/%s\n", line, live, live2, hist ? hist + 6 : "?", f.phase, f.rc, f.sig[0] ? f.sig : "-");
+    fflush(out);
+    if (k > 0 && fired == 0) break;
+  }
+  if (__lsan_do_recoverable_leak_check)
+    fprintf(out, "leakcheck %d\n", __lsan_do_recoverable_leak_check());
+}
+
 // ------------------------------------------------------------------ function level
 static int const_quality(YR_ATOMS_CONFIG* config, YR_ATOM* atom) { return 10; }
 
@@ -581,6 +755,12 @@ static void run_case(void* arg, FILE* out)
     {
       int a = atoi(tok(&p)), b = atoi(tok(&p)), st = atoi(tok(&p)), le = atoi(tok(&p));
       run_range(out, a, b, st, le);
+    }
+    else if (!strcmp(c, "script")) { strncpy(g_script, p, sizeof g_script - 1); }
+    else if (!strcmp(c, "hrun"))
+    {
+      int a = atoi(tok(&p)), b = atoi(tok(&p)), st = atoi(tok(&p));
+      run_history(out, a, b, st);
     }
     else if (!strcmp(c, "fn")) do_fn(out, p);
     else if (*c) fprintf(out, "unknown command %s\n", c);
